@@ -392,10 +392,12 @@ func (m *M1) ApplyPut(s *Spec) {
 		}
 	}
 	// virtual parent chain
-	if s.Parent >= 0 {
-		if c.Stored[s.Parent] == nil {
-			c.Stored[s.Parent] = &Ent{S: m.U.Specs[s.Parent], Phy: false}
+	for p, depth := s.Parent, 0; p >= 0 && depth < 2; depth++ {
+		ps := m.U.Specs[p]
+		if c.Stored[p] == nil {
+			c.Stored[p] = &Ent{S: ps, Phy: false}
 		}
+		p = ps.Parent
 	}
 	if s.Kind == KTomb {
 		// the tombstone marks its target and everything of the target's family for removal
